@@ -5,7 +5,7 @@ PROPS = {"C10": dict(
     module="Proofs.Properties.C10",
     theorems=[
         "Zrnt.Proofs.C10.updateJustified_returns",
-        "Zrnt.Proofs.C10.updateJustified_returns_quiet",
+        "Zrnt.Proofs.C10.updateJustified_returns_all",
         "Zrnt.Proofs.C10.Old.updateJustified_returns_false",
         "Zrnt.Proofs.C10.older_equal_noop",
         "Zrnt.Proofs.C10.outside_subtree_refused_finalized",
@@ -19,7 +19,7 @@ PROPS = {"C10": dict(
         "Zrnt.Proofs.C10.Old.prune_exact_false",
         "Zrnt.Proofs.C10.Old.prune_without_sink_false",
         "Zrnt.Proofs.C10.Old.post_prune_ops_total_false",
-        "Zrnt.Proofs.C10.no_panic_quiet",
+        "Zrnt.Proofs.C10.no_panic",
     ],
     modes=[dict(name="fc10", stateful=True, max_shrinks=2,
                 nontrivial=_nontrivial(("justify", "nodes", "head", "just", "fin", "pinq", "block", "att", "slot")))],
@@ -29,7 +29,7 @@ PROPS = {"C10": dict(
     rule="operation sequences with UpdateJustified of every kind (ahead/equal/behind/unknown/conflicting, block or gap anchor, nil/recording/failing sink) under a 2 s watchdog; counted: justify and the post-update lines the Go side executed",
     manifest=dict(
         level_text="Lean theorems about the code-shaped model (UpdateJustified returns on every state satisfying the invariants, older/equal checkpoints are a no-op, OnPrune keeps exactly the finalized subtree, reports every dropped node once with the canonical flag, is atomic under sink failure; every answer of every admissible history, finalizations included, equals the specification's; no call panics or blocks) plus differential runs against the exact-prune specification",
-        level_note="OnPrune was rewritten in /repo (commit 38d1471); the theorems are about the model of the new code, the negations on witnesses (Old.*) about the model of the old code in Zrnt/ForkChoice/Old.lean; histories with malformed insertions AND pruning are outside the proved domain (structure invariant proved for them only while the finalized checkpoint stays)",
+        level_note="OnPrune was rewritten in /repo (commit 38d1471); the theorems are about the model of the new code, the negations on witnesses (Old.*) about the model of the old code in Zrnt/ForkChoice/Old.lean; no_panic and updateJustified_returns_all hold for ALL histories (malformed insertions combined with pruning included, weak structure invariant WF0); the refinement theorems for admissible histories",
         technique="Lean 4 proof over hand model + Go/Lean/oracle differential correspondence",
         design_ref="DESIGN.md 5/C10", engine="lean"),
 )}
